@@ -164,8 +164,9 @@ def _alloc_port(hosts, taken):
 
 
 def _mode_args(mode):
+    # --timeout 300: the idle reaper must not be what ends the client connections that are open at shutdown time
     return {'threaded': ['--threaded'], 'local': ['--threadless', '--local-executor', '1'],
-            'remote': ['--threadless', '--local-executor', '0']}[mode]
+            'remote': ['--threadless', '--local-executor', '0']}[mode] + ['--timeout', '300']
 
 
 def _run_case(case):
@@ -276,10 +277,41 @@ def _run_case(case):
             probes.append([kind, h, q, r])
         out['probes'] = probes
         out['children'] = len(set(_children_of(me)) - kids_before)
-        # ---- shutdown
-        try:
-            p.shutdown()
-        except BaseException as e:
+        # client connections that are still OPEN when shutdown is requested (round-4 seed C19-r4-2): one silent, one in the
+        # middle of a request, on the first TCP endpoint - shutdown must not wait for them
+        lingering = []
+        for kind, h, q in endpoints[:1]:
+            if kind != 'tcp':
+                continue
+            for payload in (b'', b'GET / HTTP/1.1\r\nHost: lingering'):
+                try:
+                    ls = socket.socket(_fam(h), socket.SOCK_STREAM)
+                    ls.settimeout(5.0)
+                    ls.connect((h, q))
+                    if payload:
+                        ls.sendall(payload)
+                    lingering.append(ls)
+                except OSError:
+                    pass
+        out['lingering'] = len(lingering)
+        if lingering:
+            time.sleep(0.2)                      # let the acceptor hand them to their handler (thread / executor)
+        # ---- shutdown (in a thread: a shutdown that does not return is an observation, not a stuck check)
+        import threading
+        sd = {}
+        def _do_shutdown():
+            try:
+                p.shutdown()
+            except BaseException as e:
+                sd['err'] = e
+        th = threading.Thread(target=_do_shutdown, daemon=True)
+        th.start()
+        th.join(45.0)
+        if th.is_alive():
+            out['shutdown_err'] = 97
+            out['shutdown_err_text'] = 'Proxy.shutdown() did not return within 45 s with %d client connection(s) still open' % len(lingering)
+        elif 'err' in sd:
+            e = sd['err']
             out['shutdown_err'] = C.exn_code(e) if isinstance(e, Exception) else 98
             out['shutdown_err_text'] = '%s: %s' % (type(e).__name__, e)
         out['after_files'] = [os.path.lexists(path['pid']), os.path.lexists(path['ports']), os.path.lexists(path['sock'])]
@@ -294,6 +326,11 @@ def _run_case(case):
                                 else _probe(socket.AF_UNIX, os.path.join(tmp, h), 1.0)] for kind, h, q in endpoints]
         out['after_children'] = len(set(_children_of(me)) - kids_before)
         out['after_active_children'] = len(multiprocessing.active_children())
+        for ls in lingering:
+            try:
+                ls.close()
+            except OSError:
+                pass
         return out
     finally:
         tcp_mod.TcpSocketListener.listen = orig_listen
